@@ -293,13 +293,23 @@ def rules(ctx: Ctx) -> None:
             continue
         for k in prog.walk_fn(f):
             if isinstance(k, ast.Call) and isinstance(k.func, ast.Attribute) and k.func.attr in ("search", "match", "fullmatch", "findall", "finditer", "sub", "split") \
-                    and (u(k.func.value) == "re" or any(isinstance(v, ast.Call) and u(v.func) in ("re.compile", "compile") for v in prog.value_sources(f, k.func.value))):
+                    and (u(k.func.value) == "re" or any(isinstance(v, ast.Call) and u(v.func) in ("re.compile", "compile") for v in prog.value_sources(f, k.func.value))
+                         or _is_compiled_pattern(prog, f, k.func.value)):
                 textual = [a for a in k.args if any(isinstance(x, ast.Attribute) and x.attr in ("raw", "raw_upper", "raw_normalized") for x in prog.influences(f, a))]
                 if textual:
                     n_re += 1
                     ctx.ob("R07.7", f"no-regular-expression-over-segment-text:{f.owner}", False, loc(f.mod, k),
                            f"`{u(k)[:70]}` matches a regular expression against the text of a segment: comments and line breaks between tokens are part of that text")
     ctx.ob("R07.7", "no-regular-expression-over-segment-text:scanned", True, "sqllineage/core/parser/sqlfluff", f"{n_re} use(s) found", trivial=True)
+
+
+def _is_compiled_pattern(prog: Prog, f, e: ast.AST) -> bool:
+    """a module-level name bound to re.compile(...)"""
+    if isinstance(e, ast.Name):
+        r = prog.resolve(f.mod.name, e.id, f)
+        if r and r[0] == "var" and len(r) > 2 and isinstance(r[2], ast.Call) and u(r[2].func) in ("re.compile", "compile"):
+            return True
+    return False
 
 
 def _text_projection(e: ast.AST) -> Optional[str]:
